@@ -359,7 +359,7 @@ func C08(r *vf.Run) {
 			mr := img.Clone()
 			sr := s
 			inf := ref.Step(&sr, mem.RefMem{M: mr})
-			if !hazard(mr, inf) && rp.pan == nil && ra.pan == nil {
+			if !hazard(mr, inf, s) && rp.pan == nil && ra.pan == nil {
 				if a, same := mem.SameWrites(mr, mp); !same {
 					w.r.Fail("prim:wrapped-store-address:"+ref.ModeNames[inf.Mode], fmt.Sprintf("prim %s stores differ from the 24-bit-wrapped ones at $%06x: model {%s} got {%s} | pre={%v}", opName(op), a, fmtWrites(mr.Wr), fmtWrites(mp.Wr), s), det())
 				}
